@@ -8,8 +8,8 @@
  *
  *   argv=<hex>,<hex>,... stdin=<hex> fds=<n>,<n>,... stdin_target=<link>
  *
- * argv excludes argv[0]; an empty argument, an empty argument list and an
- * empty stdin are written as "-". fds is the numerically sorted list of
+ * argv excludes argv[0]; an empty argument and an empty stdin are written as "-",
+ * an empty argument list as "none". fds is the numerically sorted list of
  * descriptors found in /proc/self/fd, excluding the one used to read that
  * directory, taken before the helper opens anything else. stdin_target is
  * readlink(/proc/self/fd/0), or "-" if that fails. If reading stdin fails,
@@ -153,7 +153,7 @@ main(int argc, char *argv[])
 	/* 4. One line, written with a single write(2) in append mode. */
 	buf_str(&line, "argv=");
 	if (argc <= 1)
-		buf_str(&line, "-");
+		buf_str(&line, "none");	/* distinguishes an empty vector from one empty argument */
 	for (i = 1; i < (size_t)argc; i++) {
 		if (i > 1)
 			buf_str(&line, ",");
